@@ -142,6 +142,8 @@ def install_seams(chan, cache_dir, private_tmp):
     real_open = builtins.open
     real_stat, real_replace, real_rename = os.stat, os.replace, os.rename
     real_mkdir, real_unlink, real_chdir = os.mkdir, os.unlink, os.chdir
+    real_os_open, real_utime, real_link, real_symlink = os.open, os.utime, os.link, os.symlink
+    real_rmdir, real_lstat = os.rmdir, os.lstat
     real_check_call = subprocess.check_call
 
     def _exists(x):
@@ -175,11 +177,96 @@ def install_seams(chan, cache_dir, private_tmp):
             return FileProxy(f, chan, base)
         return f
 
+    def _virtual_times(st, ans):
+        """File times are part of the simulated clock: the parent knows at which virtual time
+        each artefact was last written; real mtimes would be meaningless next to time.time()."""
+        vt = ans.get("mtime")
+        if vt is None:
+            return st
+        t = 1_700_000_000.0 + float(vt)
+        f = list(st)
+        f[7] = f[8] = f[9] = int(t)
+        extra = {"st_atime": t, "st_mtime": t, "st_ctime": t, "st_atime_ns": int(t * 1e9),
+                 "st_mtime_ns": int(t * 1e9), "st_ctime_ns": int(t * 1e9)}
+        for name in ("st_blksize", "st_blocks", "st_rdev"):
+            if hasattr(st, name):
+                extra[name] = getattr(st, name)
+        return os.stat_result(f, extra)
+
     def sim_stat(path, *a, **k):
         base = watched(path) if not isinstance(path, int) else None
         if base is not None and role_of(base) in ("marker", "lock", "failed"):
-            chan.seam("stat", file=base, role=role_of(base))
+            ans = chan.seam("stat", file=base, role=role_of(base))
+            return _virtual_times(real_stat(path, *a, **k), ans)
         return real_stat(path, *a, **k)
+
+    def sim_lstat(path, *a, **k):
+        base = watched(path) if not isinstance(path, int) else None
+        if base is not None and role_of(base) in ("marker", "lock", "failed"):
+            ans = chan.seam("stat", file=base, role=role_of(base))
+            return _virtual_times(real_lstat(path, *a, **k), ans)
+        return real_lstat(path, *a, **k)
+
+    def sim_os_open(path, flags, mode=0o777, *a, **k):
+        """Low-level open of an artefact (pathlib's touch, O_EXCL locks): reported like open()
+        with the equivalent mode letter; the creation is atomic at this seam."""
+        base = watched(path) if not isinstance(path, int) else None
+        if base is None or role_of(base) not in ("marker", "lock", "failed"):
+            return real_os_open(path, flags, mode, *a, **k)
+        if flags & os.O_CREAT:
+            letter = "x" if flags & os.O_EXCL else ("w" if flags & os.O_TRUNC else "a")
+        else:
+            letter = "r" if (flags & 3) == os.O_RDONLY else "r+"
+        chan.seam("open", file=base, role=role_of(base), mode=letter, lowlevel=True)
+        fd = real_os_open(path, flags, mode, *a, **k)
+        if role_of(base) == "marker" and flags & os.O_CREAT:
+            # the parent's ghost marker goes empty -> written at close; os.close of a raw fd is
+            # not intercepted, so report the close right away
+            chan.seam("close", file=base, role="marker")
+        return fd
+
+    def sim_utime(path, *a, **k):
+        base = watched(path) if not isinstance(path, int) else None
+        if base is not None and role_of(base) in ("marker", "lock", "failed"):
+            chan.seam("utime", file=base, role=role_of(base))
+        return real_utime(path, *a, **k)
+
+    def sim_link(src, dst, *a, **k):
+        b1, b2 = watched(src), watched(dst)
+        if b2 and role_of(b2) in ("marker", "lock", "failed"):
+            # link()/symlink() onto a lock or marker name creates it exclusively
+            chan.seam("open", file=b2, role=role_of(b2), mode="x", lowlevel=True, via="link")
+            r = real_link(src, dst, *a, **k)
+            if role_of(b2) == "marker":
+                chan.seam("close", file=b2, role="marker")
+            return r
+        return real_link(src, dst, *a, **k)
+
+    def sim_symlink(src, dst, *a, **k):
+        b2 = watched(dst)
+        if b2 and role_of(b2) in ("marker", "lock", "failed"):
+            chan.seam("open", file=b2, role=role_of(b2), mode="x", lowlevel=True, via="symlink")
+            r = real_symlink(src, dst, *a, **k)
+            if role_of(b2) == "marker":
+                chan.seam("close", file=b2, role="marker")
+            return r
+        return real_symlink(src, dst, *a, **k)
+
+    def sim_mkdir(path, *a, **k):
+        base = watched(path)
+        if base and role_of(base) in ("marker", "lock", "failed"):
+            chan.seam("open", file=base, role=role_of(base), mode="x", lowlevel=True, via="mkdir")
+            r = real_mkdir(path, *a, **k)
+            if role_of(base) == "marker":
+                chan.seam("close", file=base, role="marker")
+            return r
+        return real_mkdir(path, *a, **k)
+
+    def sim_rmdir(path, *a, **k):
+        base = watched(path)
+        if base:
+            chan.seam("unlink", file=base, role=role_of(base))
+        return real_rmdir(path, *a, **k)
 
     def sim_replace(src, dst, *a, **k):
         b1, b2 = watched(src), watched(dst)
@@ -281,6 +368,13 @@ def install_seams(chan, cache_dir, private_tmp):
     builtins.open = sim_open
     io.open = sim_open
     os.stat = sim_stat
+    os.lstat = sim_lstat
+    os.open = sim_os_open
+    os.utime = sim_utime
+    os.link = sim_link
+    os.symlink = sim_symlink
+    os.mkdir = sim_mkdir
+    os.rmdir = sim_rmdir
     os.replace = sim_replace
     os.rename = sim_rename
     os.unlink = sim_unlink
@@ -356,6 +450,9 @@ def child_main(rfd, wfd, cache_dir, private_tmp, pool):
     chan = Chan(rfd, wfd)
     root = logging.getLogger()
     root.addHandler(Sentinel())
+    # the application has its own stdout object (a notebook, a test runner, a tee): restoring
+    # "the" stdout must mean restoring this object, not sys.__stdout__
+    sys.stdout = io.TextIOWrapper(io.FileIO(os.open(os.devnull, os.O_WRONLY), "w"), write_through=True)
     install_seams(chan, cache_dir, private_tmp)
     import ffcx.codegeneration.jit as jit
 
